@@ -85,6 +85,15 @@ def names_of(n):
     return out
 
 
+def atoms_of(n):
+    d, l, r = n
+    out = [d[1]] if d[0] == "s" else []
+    for c in (l, r):
+        if c is not None:
+            out.extend(atoms_of(c))
+    return out
+
+
 def ops_of(n):
     d, l, r = n
     out = [d[1]] if d[0] == "op" else []
@@ -193,6 +202,7 @@ def oracle_c18(n, reply, after, documented=None):
                 if not (isinstance(l_, str) and isinstance(r_, str) and l_ in names and r_ in names):
                     fails.append(("left_right:not-names", str(lr)))
                 else:
+                    names = sorted(set(atoms_of(n)))
                     if req == t:
                         ok, env = equivalent(n, lambda e: (not e[l_]) or e[r_], names)
                         if not ok:
@@ -206,7 +216,7 @@ def oracle_c18(n, reply, after, documented=None):
         if sp is not None:
             parts = [sx_to_node(p) for p in sp]
             if all(well_formed_logical(p) for p in parts):
-                pn = sorted(set(names) | {x for p in parts for x in names_of(p)})
+                pn = sorted(set(atoms_of(n)) | {x for p in parts for x in atoms_of(p)})
                 for bits in itertools.product((False, True), repeat=len(pn)):
                     env = dict(zip(pn, bits))
                     if ev(n, env) != all(ev(p, env) for p in parts):
@@ -262,8 +272,15 @@ def cases(ctx):
         yield "exh-depth2", t, None
     nrand = 600 if tier == "quick" else 8000
     pool = ["A", "B", "C", "D", "E", "my feat", "x-y", "ñ", "NOT", "or"]
-    for i in range(nrand):
-        yield "random-deep", g.ctc(pool, gen.LOGICAL, g.rng.randint(3, 6), 0.25), None
+    done = 0
+    while done < nrand:
+        t = g.ctc(pool, gen.LOGICAL, g.rng.choice([3, 3, 4, 5]), 0.3)
+        # the CNF of nested XOR / EQUIVALENCE is exponential (minutes in the implementation): keep
+        # at most two of them per tree
+        if sum(1 for o in ops_of(t) if o in ("XOR", "EQUIVALENCE")) > 2 or len(ops_of(t)) > 24:
+            continue
+        done += 1
+        yield "random-deep", t, None
     # arithmetic / aggregate / odd terms for the kind predicates
     for i in range(200 if tier == "quick" else 2000):
         yield "arith", rand_arith(g), None
